@@ -423,6 +423,26 @@ def gen_topology(rng, big=False):
             tables[kind].append({"key": list(key), "par": entry_par(kind)})
 
     defnames = {d["name"] for d in defs}
+    # the parameterless dihedrals, as type sequences: used only to keep the generator inside the stated domain (no two
+    # different keys of equal wildcard count matching one dihedral); whether a record is in the domain is decided by TLC
+    dih_seqs = []
+    for mol in mols:
+        for it in mol["inter"]["dihedrals"]:
+            if len(it["par"]) == 1:
+                dih_seqs.append([look(mol["atypes"][a - 1]) for a in it["atoms"]])
+
+    def _covers(key, ts):
+        return any(all(k == "X" or k == t for k, t in zip(key, seq)) for seq in (ts, ts[::-1]))
+
+    def ties(key):
+        wc = key.count("X")
+        for ts in dih_seqs:
+            if _covers(key, ts):
+                for e in tables["dihedrals"]:
+                    if e["key"] != list(key) and e["key"].count("X") == wc and _covers(e["key"], ts):
+                        return True
+        return False
+
     for mol in mols:
         for kind in KINDS:
             for it in mol["inter"][kind]:
@@ -437,7 +457,8 @@ def gen_topology(rng, big=False):
                         key = ["X" if w else t for w, t in zip(mask, ts)]
                         if rng.random() < 0.5:
                             key = key[::-1]
-                        add(kind, key, rng.randint(1, 3) if func[kind] == "9" else 1)
+                        if not ties(key):
+                            add(kind, key, rng.randint(1, 3) if func[kind] == "9" else 1)
                 else:
                     add(kind, ts if rng.random() < 0.5 else ts[::-1])
     for kind in KINDS:
@@ -446,7 +467,8 @@ def gen_topology(rng, big=False):
             key = [look(rng.choice(types)) for _ in range(ar)]
             if kind == "dihedrals" and rng.random() < 0.5:
                 key[rng.randrange(4)] = "X"
-            add(kind, key)
+            if kind != "dihedrals" or not ties(key):
+                add(kind, key)
         rng.shuffle(tables[kind]) if kind != "dihedrals" else None
     if rng.random() < 0.5:
         # dihedral table: shuffle the keys, keep the terms of one key together and in order
@@ -617,54 +639,66 @@ def trace_cfg(known, wd):
     return f
 
 
+def validate_batches(ck, batches, expect_reject=False):
+    """batch validation by TypeResolveTrace, the batches concurrently.  batches: list of (name, records).
+    Records whose run raised are violations right away.  Returns {name: (rejected tids, verdicts)}."""
+    jobs, goods = [], {}
+    for name, recs in batches:
+        good = []
+        for r in recs:
+            if "exception" in r:
+                if not expect_reject:
+                    ck.violation({"kind": "I->S record", "record": r}, what="the code raised on an in-domain topology (seed %s): %s" % (r["seed"], r["exception"]))
+                continue
+            good.append(r)
+        goods[name] = good
+        if not good:
+            continue
+        wd = c.workdir(PROP, name)
+        doc = []
+        for r in good:
+            nbobs = r["nbobs"]
+            doc.append({"top": r["top"], "obs": r["obs"], "nb": r["nb"] if nbobs is not None else EMPTY_NB,
+                        "nbobs": nbobs if nbobs is not None else EMPTY_NBOBS})
+        f = wd / "records.json"
+        f.write_text(json.dumps(doc))
+        jobs.append((name, ("TypeResolveTrace", trace_cfg(ck._known, wd), {"workers": 1, "env": {"TRACE_FILE": str(f)}, "check": False, "timeout": 1500})))
+    out = {name: (set(), {}) for name, _ in batches}
+    for (name, _), res in zip(jobs, c.tlc_many([j for _, j in jobs]) if jobs else []):
+        good = goods[name]
+        rej = res.tagged("REJECTED")
+        if (res.rc != 0 and not rej) or not res.finished:
+            raise c.MachineryError("TypeResolveTrace failed on %s: %s" % (name, res.out[-2500:]))
+        rejected = set()
+        for r in rej:
+            rejected.update(int(x) for x in r)
+        verdicts = {int(v[0]): (v[1], v[2]) for v in res.tagged("VERDICT")}
+        out[name] = (rejected, verdicts)
+        if expect_reject:
+            continue
+        ck.add_tlc(res)
+        nskip = 0
+        for tid, r in enumerate(good, 1):
+            b, n = verdicts.get(tid, ("ok", "ok"))
+            if tid in rejected:
+                which = "bonded" if b == "reject" else "non-bonded"
+                ck.violation({"kind": "I->S record", "record": r, "verdict": [b, n]},
+                             what="record of seed %s rejected by the %s P-layer" % (r["seed"], which))
+                continue
+            if b == "skip" or n == "skip":
+                nskip += 1
+                continue
+            if b != "ok":
+                for sig in b.split("+"):
+                    ck.violation({"kind": "I->S record", "record": r, "verdict": [b, n]}, sig=sig, what="known deviation " + sig)
+            ck.traces += 1
+            ck.nontrivial.add(hashlib.sha1(json.dumps([r["top"], r["nb"]], sort_keys=True).encode()).hexdigest())
+        ck.extra["records_outside_domain_skipped"] = ck.extra.get("records_outside_domain_skipped", 0) + nskip
+    return out
+
+
 def validate_records(ck, recs, name, expect_reject=False):
-    """batch validation by TypeResolveTrace.  Records whose run raised are violations right away."""
-    good = []
-    for r in recs:
-        if "exception" in r:
-            if not expect_reject:
-                ck.violation({"kind": "I->S record", "record": r}, what="the code raised on an in-domain topology (seed %s): %s" % (r["seed"], r["exception"]))
-            continue
-        good.append(r)
-    if not good:
-        return set(), {}
-    wd = c.workdir(PROP, name)
-    doc = []
-    for r in good:
-        nbobs = r["nbobs"]
-        doc.append({"top": r["top"], "obs": r["obs"], "nb": r["nb"] if nbobs is not None else EMPTY_NB,
-                    "nbobs": nbobs if nbobs is not None else EMPTY_NBOBS})
-    f = wd / "records.json"
-    f.write_text(json.dumps(doc))
-    res = c.tlc("TypeResolveTrace", trace_cfg(ck._known, wd), workers=1, env={"TRACE_FILE": str(f)}, check=False, timeout=1500)
-    rej = res.tagged("REJECTED")
-    if (res.rc != 0 and not rej) or not res.finished:
-        raise c.MachineryError("TypeResolveTrace failed on %s: %s" % (name, res.out[-2500:]))
-    rejected = set()
-    for r in rej:
-        rejected.update(int(x) for x in r)
-    verdicts = {int(v[0]): (v[1], v[2]) for v in res.tagged("VERDICT")}
-    if expect_reject:
-        return rejected, verdicts
-    ck.add_tlc(res)
-    nskip = 0
-    for tid, r in enumerate(good, 1):
-        b, n = verdicts.get(tid, ("ok", "ok"))
-        if tid in rejected:
-            which = "bonded" if b == "reject" else "non-bonded"
-            what = "record of seed %s rejected by the %s P-layer" % (r["seed"], which)
-            ck.violation({"kind": "I->S record", "record": r, "verdict": [b, n]}, what=what)
-            continue
-        if b == "skip" or n == "skip":
-            nskip += 1
-            continue
-        if b != "ok":
-            for sig in b.split("+"):
-                ck.violation({"kind": "I->S record", "record": r, "verdict": [b, n]}, sig=sig, what="known deviation " + sig)
-        ck.traces += 1
-        ck.nontrivial.add(hashlib.sha1(json.dumps([r["top"], r["nb"]], sort_keys=True).encode()).hexdigest())
-    ck.extra["records_outside_domain_skipped"] = ck.extra.get("records_outside_domain_skipped", 0) + nskip
-    return rejected, verdicts
+    return validate_batches(ck, [(name, recs)], expect_reject)[name]
 
 
 def binding_demo(ck, recs):
@@ -779,9 +813,8 @@ def run(tier):
         ck.sample({"I->S record (seed %s)" % r0["seed"]: {"molecules": r0["top"]["molecules"], "dihedraltypes": r0["top"]["tables"]["dihedrals"][:4],
                                                           "first instance, dihedrals": (r0["obs"]["inst"] or [{"inter": {"dihedrals": []}}])[0]["inter"]["dihedrals"][:4]}})
     ck.stage("TLC: validate %d records" % (len(recs) + len(big) + len(repo)))
-    validate_records(ck, recs, "records")
-    validate_records(ck, big, "records_big")
-    validate_records(ck, repo, "records_repo")
+    half = len(recs) // 2
+    validate_batches(ck, [("records_a", recs[:half]), ("records_b", recs[half:]), ("records_big", big), ("records_repo", repo)])
     nerr_rec = sum(1 for r in recs + big if "exception" not in r and r["obs"]["err"])
     ck.extra["records_with_unmatched_interaction"] = nerr_rec
     ck.stage("binding demonstration")
